@@ -21,12 +21,12 @@ ASSUMPTIONS = ['the fix_time_window dictionary is passed as a copy (C10 effects 
                'MIP portfolios whose re-optimisation reports failure are inconclusive (booleans pinned to values within solver tolerance of 0/1)']
 MIN_NONVACUOUS = {'quick': {'fix.window_variables_pinned': 250, 'fix.other_bounds_untouched': 250, 'fix.solution_kept_on_window': 200, 'fix.same_prices_same_value': 100},
                   'thorough': {'fix.window_variables_pinned': 1500, 'fix.solution_kept_on_window': 1200, 'fix.same_prices_same_value': 600}}
-KINDS = ('contract', 'transport', 'transport', 'storage', 'multi', 'multi', 'coarse', 'coarse', 'periodic', 'orderbook', 'plant', 'chp', 'structured')
+KINDS = ('contract', 'transport', 'transport', 'storage', 'multi', 'multi', 'coarse', 'coarse', 'periodic', 'orderbook', 'plant', 'chp', 'structured', 'storage_mip')
 
 
 def run_case(rng, tier, case):
     lp_only = rng.random() < 0.8
-    base = gen.gen_mixed_portfolio(rng, kinds=[k for k in KINDS if not (lp_only and k in ('plant', 'chp'))], grid_kw={'steps': (6, 30)}, n_assets=(2, 5), n_nodes=(1, 3), mip_ok=not lp_only,
+    base = gen.gen_mixed_portfolio(rng, kinds=[k for k in KINDS if not (lp_only and k in ('plant', 'chp', 'storage_mip'))], grid_kw={'steps': (6, 30)}, n_assets=(2, 5), n_nodes=(1, 3), mip_ok=not lp_only,
                                    data_caps=True)
     cap_levels = base.get('_cap_levels') or {}
     spec = gen.strip_private(base)
@@ -64,6 +64,11 @@ def run_case(rng, tier, case):
             d = d.tz_convert(gen.pick(rng, ['UTC', 'Asia/Kolkata', 'America/New_York']))     # the same instant expressed in another zone
             case.feature('date_in_other_zone')
         I = d if rng.random() < 0.5 else d.to_pydatetime()
+        mids = [p_ for p_ in pts[1:] if p_.hour == 0 and p_.minute == 0]
+        if g.get('tz') is None and mids and rng.random() < 0.35:
+            # the window given as a calendar date (datetime.date): documented to mean that day's first instant, like any other date
+            d = mids[int(rng.integers(len(mids)))]; I = d.date()
+            case.feature('window_as_calendar_date')
         steps = np.array([t for t in range(T) if pts[t] <= d])
     if isinstance(I, np.ndarray) and rng.random() < 0.3:
         I = [bool(v) for v in I] if I.dtype == bool else [int(v) for v in I]      # the window as a plain Python list (of booleans / of step numbers)
@@ -114,6 +119,11 @@ def run_case(rng, tier, case):
         s0 = snap_of(rb.op)
     if len(s0.c) != len(s1.c):
         case.check('fix.same_variables', False, n0=len(s0.c), n1=len(s1.c)); return
+    # which step an internal variable (on/off flag, charge/discharge mode) belongs to decides whether the window pins it: read off the asset's own rows
+    from ..mon_problem import mon_internal_steps
+    for pev_, kids_ in flow.top_setups(r1.rec):
+        for kd_ in kids_:
+            mon_internal_steps(case, kd_, clause='fix.internal_variables_filed_under_their_step')
     m = s1.mapping
     inwin = np.zeros(len(s1.c), bool)
     rows_in = m['time_step'].isin([int(s) for s in steps]).values
